@@ -293,8 +293,8 @@ class Driver:
                 except Exception as e:  # noqa: BLE001
                     perr("queryDatasetAssociations", e)
         obs["qd"] = sorted(map(list, {tuple(r) for r in qd}))
-        chain_ids = {c for c, kd in colls if kd == 3}
-        flat = [tuple(r) for r in qd if r[0] not in chain_ids]
+        multi = {c for c, kd in colls if kd in (3, 4)}     # chains / calibration collections may list a dataset repeatedly
+        flat = [tuple(r) for r in qd if r[0] not in multi]
         obs["qd_dups"] = len(flat) - len(set(flat))
         if full:
             obs["qleg"] = sorted(map(list, {tuple(r) for r in qleg}))
